@@ -22,9 +22,10 @@ Environment (all optional; nothing happens unless PYTHON_MYPY_VERIF=1 and C04_SP
   line is written: a begin without completion = the process was killed from outside inside the operation.
 * crash: the process calls os._exit(70) (scope=process) or kills its whole process group with SIGKILL
   (scope=group: "the run is killed") immediately before / after the identified operation.
-* fail: the identified writes are not performed and return False -- the documented failure mode of
-  MetadataStore.write (OSError in os.replace / sqlite3.OperationalError are both mapped to False by the stores);
-  an identified `remove` raises PermissionError (filesystem store) / sqlite3.OperationalError (sqlite store).
+* fail: during the identified store call the LOW-LEVEL operation fails -- filesystem store: os.replace (write) /
+  os.remove (remove) raise PermissionError; sqlite store: the connection's execute raises sqlite3.OperationalError --
+  so the store classes' own error handling (write -> False, remove -> exception) is inside the tested code.
+  Trace: "ok" = what the caller was told, "effect" = whether the entry really changed.
 * unnamed operations (commit) carry "anchor" = "<kind>:<name>:<occ>" of the last named operation of the process;
   their "occ" counts from that anchor, and a crash spec for them must give the same "anchor".
 """
@@ -69,6 +70,7 @@ def install() -> None:
     # unnamed operations (commit) are identified by the last NAMED operation of this process before them
     # ("anchor") + their number since then: stable under any assignment of SCCs to workers
     state = {"anchor": ""}
+    hit = {"n": 0}
 
     def relevant(name: str) -> bool:
         if not name or not only:
@@ -123,12 +125,59 @@ def install() -> None:
     def wrap_store(cls, is_sqlite: bool) -> None:
         o_write, o_remove, o_commit, o_commit_path = cls.write, cls.remove, cls.commit, cls.commit_path
 
+        class _FailingDb:
+            """Stands in for a sqlite3.Connection while an injected failure is active: execute raises
+            what a locked / full database raises."""
+            def __init__(self, real):
+                self._real = real
+            def execute(self, *a, **k):
+                hit["n"] += 1
+                import sqlite3
+                raise sqlite3.OperationalError("database is locked (injected)")
+            def __getattr__(self, k):
+                return getattr(self._real, k)
+
+        class lowlevel_failure:
+            """Make the LOW-LEVEL operation under the store method fail, so that the store class's own error
+            handling is part of the tested code: filesystem store: os.replace (write) / os.remove (remove) raise
+            OSError; sqlite store: the connection's execute raises sqlite3.OperationalError."""
+            def __init__(self, store, name, op):
+                self.store, self.name, self.op = store, name, op
+            def __enter__(self):
+                hit["n"] = 0
+                if is_sqlite:
+                    self.idx = self.store._shard_index(self.name) if self.store.dbs else None
+                    if self.idx is not None:
+                        self.saved = self.store.dbs[self.idx]
+                        self.store.dbs[self.idx] = _FailingDb(self.saved)
+                else:
+                    attr = "replace" if self.op == "write" else "remove"
+                    self.attr, self.saved = attr, getattr(os, attr)
+                    def failing(*a, **k):
+                        hit["n"] += 1
+                        raise PermissionError(13, "Permission denied (injected)", self.name)
+                    setattr(os, attr, failing)
+            def __exit__(self, *exc):
+                if is_sqlite:
+                    if self.idx is not None:
+                        self.store.dbs[self.idx] = self.saved
+                else:
+                    setattr(os, self.attr, self.saved)
+                return False
+
         def write(self, name, data, mtime=None):
             if not relevant(name):
                 return o_write(self, name, data, mtime)
             occ, failing = point("write", name)
-            res = False if failing else o_write(self, name, data, mtime)
-            done("write", name, occ, {"ok": bool(res), "injected": failing})
+            if failing:
+                with lowlevel_failure(self, name, "write"):
+                    res = o_write(self, name, data, mtime)
+                effect = hit["n"] == 0
+            else:
+                res = o_write(self, name, data, mtime)
+                effect = bool(res)
+            # "ok" = what the caller is told; "effect" = whether the entry was really written
+            done("write", name, occ, {"ok": bool(res), "effect": effect, "injected": failing and hit["n"] > 0})
             return res
 
         def remove(self, name):
@@ -137,17 +186,16 @@ def install() -> None:
             occ, failing = point("remove", name)
             try:
                 if failing:
-                    # the failure modes of the two stores: os.remove raising an OSError that is not
-                    # FileNotFoundError / sqlite3 raising OperationalError
-                    if is_sqlite:
-                        import sqlite3
-                        raise sqlite3.OperationalError("database is locked (injected)")
-                    raise PermissionError(13, "Permission denied (injected)", name)
-                res = o_remove(self, name)
+                    with lowlevel_failure(self, name, "remove"):
+                        res = o_remove(self, name)
+                else:
+                    res = o_remove(self, name)
             except BaseException as e:
-                done("remove", name, occ, {"raised": type(e).__name__, "ok": False, "injected": failing})
+                done("remove", name, occ, {"raised": type(e).__name__, "ok": False,
+                                           "effect": isinstance(e, FileNotFoundError), "injected": failing and hit["n"] > 0})
                 raise
-            done("remove", name, occ, {})
+            # a store that swallows the low-level error reports success although nothing was removed
+            done("remove", name, occ, {"ok": True, "effect": not (failing and hit["n"] > 0), "injected": failing and hit["n"] > 0})
             return res
 
         def commit(self):
